@@ -30,6 +30,9 @@ CHECKS = {
  "C19": dict(level="exploration", engine="world",
    text="2-5 concurrent client goroutines in one simulated session share base results (runs through pipelined and redistributing operators, scans, optional discard); seeded virtual delays at RPC seams, in user functions and at the simhook yield points order the elections and wake-ups; each successful scan equals the reference of its program as if alone; a yield-hook monitor checks that no task has two Executor.Run calls in flight; thorough tier re-runs every third case under the race detector (race reports with /repo frames are violations).",
    design="§6 C19", technique="deterministic simulation with seeded yield/delay schedules, reference-model oracle, in-flight monitor, race detector in thorough tier", note=WHOLE),
+ "C13": dict(level="fault_enumeration", engine="world",
+   text="Two-process cache histories on a simulated file system (base/file scheme simfs://, commit-on-close semantics): process 1 runs a program with a Cache/CachePartial operator clean, or with an error / short write / sticky error at the k-th create, write, close or stat of the cache files, or with a crash-stop at the k-th file operation (the process exits; only published files survive in a snapshot), or with a machine kill or a reader error; process 2 starts from the surviving files (optionally minus a subset) and runs the same program. Oracles: rows equal the reference, every published shard file decodes with the real decoder to exactly its shard's reference rows at the start and end of every process, process 2 succeeds, cached shards are not recomputed (user-function call counts). Fault positions are seeded, not exhaustively swept, in the quick tier.",
+   design="§6 C13", technique="deterministic simulation with disk fault injection and crash-restart across OS processes, durable-state invariant + reference-model oracle", note=WHOLE + "; built with CGO_ENABLED=0 (klauspost zstd) except the one recorded reproduction of the DataDog-zstd dependency finding"),
 }
 
 NOT_APPLICABLE = {
